@@ -171,6 +171,32 @@ def coherence():
     for t in struct_like + [x for x in structures_types if dataclasses.is_dataclass(x)]:
         maxd = max(maxd, dfs(t, []))
     ob(u, "C20/GRAPH/acyclic", not cyc, f"cycles: {cyc[:3]}; max depth {maxd}")
+    # member names of named ranges: '<base><sep><offset from the range start, zero-padded hex>' for every value of every range
+    from tpmstream.spec.common.values import NamedRange
+    seen_ranges = set()
+    for t in structures_types:
+        if not hasattr(t, "_int_size"):
+            continue
+        for v in getattr(t, "_valid_values")._values:
+            members = list(v) if isinstance(v, type) and hasattr(v, "class_iter") else [v]
+            cands = [m for m in ([v] if isinstance(v, NamedRange) else []) ]
+            if isinstance(v, type) and hasattr(v, "class_iter"):
+                import inspect
+                from tpmstream.spec.common.values import _is_public_non_funtion_attr
+                cands += [a for n, a in inspect.getmembers(v) if _is_public_non_funtion_attr(n, a) and isinstance(a, NamedRange)]
+            for r in cands:
+                if id(r) in seen_ranges:
+                    continue
+                seen_ranges.add(id(r))
+                width = r._end - r._start
+                points = range(r._start, r._end) if width <= 4096 else [r._start, r._start + 1, r._start + 0x10, r._start + 0xFF, r._start + width // 2, r._end - 2, r._end - 1]
+                bad = []
+                for n in points:
+                    m = r.by_number(n)
+                    want = f"{r._basename}{r._sep}{n - r._start:0{r._index_nibbles}x}"
+                    if getattr(m, "_name", None) != want or int(getattr(m, "_value", -1)) != n:
+                        bad.append(f"{n:#x}: {getattr(m, '_name', m)!r} expected {want!r}")
+                ob(u, f"C20/RANGE-NAMES/{r._type.__name__}.{r._basename}", not bad, "; ".join(bad[:3]) or f"{len(points)} values", site=f"values.py:NamedRange.by_number")
     u.samples = [{"obligation": o["name"], "detail": o["detail"]} for o in u.obligations[:3]]
     return u
 
